@@ -12,7 +12,9 @@
    documented objective, and the gradient it hands over, 2 (X L^T)^T S X with S = W + W^T and diagonal -colsum(W), IS
    the derivative of the documented objective: d/dt nca_obj (L + t E) at t = 0 equals <gradient, E>_F.  The gradient
    model is compared with the code's own gradient on binary64 by props/c10.py (c10_nca_grad).
-   NOT proved: the same for MLKR's and LMNN's analytic gradients (checked per instance by central differences);
+   The same for MLKR (C10_mlkr_gradient): cost = sum_i (yhat_i - y_i)^2 with yhat = softmax . y is the documented
+   leave-one-out regression error, and 4 (X A^T)^T W_sym X is its derivative, for all real-valued targets.
+   NOT proved: the same for LMNN's sub-gradient (piecewise; checked per instance by central differences away from kinks);
    that SciPy's L-BFGS-B never returns a worse point than x0 (checked per fit). *)
 From Coq Require Import List ZArith Reals.
 From Coquelicot Require Import Coquelicot.
@@ -54,3 +56,20 @@ Print Assumptions C10_nca_gradient.
 Example C10_nca_gradient_nonvacuous :
   wfmR 1 2 [[1; 2]] /\ wfmR 1 2 [[0; 1]] /\ List.Forall (wfvR 2) [[0; 0]; [1; 0]; [0; 3]] /\ (2 <= length [[0; 0]; [1; 0]; [0; 3]])%nat.
 Proof. repeat split; repeat constructor. Qed.
+
+(* MLKR: the cost and the gradient handed to the optimiser are the documented objective and its derivative *)
+Definition C10_mlkr_gradient_stmt : Prop :=
+  forall (k d : nat) (L E X : Rm) (yv : Rv),
+    wfmR k d L -> wfmR k d E -> List.Forall (wfvR d) X -> (2 <= length X)%nat -> length yv = length X ->
+    @mlkr_loss ROps exp L X yv = @mlkr_obj ROps exp L X yv /\
+    is_derive (fun t => @mlkr_obj ROps exp (line L E t) X yv) 0 (frobR (@mlkr_grad ROps exp k d L X yv) E).
+
+Theorem C10_mlkr_gradient : C10_mlkr_gradient_stmt.
+Proof.
+  intros k d L E X yv HL HE HX Hn Hy. split.
+  - symmetry. apply mlkr_obj_is_loss, Hy.
+  - apply (is_derive_ext (fun t => @mlkr_loss ROps exp (line L E t) X yv)).
+    + intro t. symmetry. apply mlkr_obj_is_loss, Hy.
+    + apply (mlkr_gradient_is_derivative k d L E X yv HL HE HX Hn).
+Qed.
+Print Assumptions C10_mlkr_gradient.
